@@ -117,6 +117,12 @@ def alterations(tier: str, sealed_len: int, body_len: int, sign: bool) -> t.List
         for body in ("genuine", "evil-other"):
             alts.append((f"notrailer-callid{cid}:{body}", ("notrailer-callid", cid, body)))
             alts.append((f"sealed-callid{cid}", ("set", 12, 4, cid)))
+    # the reply replaced by an unsealed PDU of ANOTHER type that carries a stub: a fault (status 0 = "no error", and real status codes), with
+    # and without stub, several flag values - whatever the codec makes of it, the stub inside is not what the peer sealed
+    for status in (0, 1, 5, 0x1C010003, 0x000006BB):
+        for body in ("evil-other", "genuine", "empty"):
+            for fl in (3, 0x23, 0x03 | 0x40):
+                alts.append((f"asfault:{status:#x}:{body}:{fl:#x}", ("asfault", status, body, fl)))
     alts.append(("integrity-level", ("integrity",)))
     alts.append(("other-connection-context", ("otherctx",)))
     alts.append(("truncate-signature", ("len", 10, -4, True)))
@@ -135,6 +141,11 @@ def apply(desc, sealed: bytes, info: dict, st: dict, op: str, sd: bytes) -> byte
         else:
             body = evil_stub(st, "same" if which == "evil-same" else "other", op, sd)
         return strip_trailer(sealed, info, body)
+    if k == "asfault":
+        _, status, which, fl = desc
+        body = b"" if which == "empty" else (info["plain_stub"] if which == "genuine" else evil_stub(st, "other", op, sd))
+        call_id = struct.unpack("<I", sealed[12:16])[0]
+        return rpc.enc_fault(call_id, struct.unpack("<H", sealed[20:22])[0], status, stub=body, flags=fl)
     if k == "flip":
         b = bytearray(sealed)
         b[desc[1] // 8] ^= 1 << (desc[1] % 8)
